@@ -6,6 +6,7 @@ import torch
 import torch.nn as nn
 import torch.optim as optim
 from gymnasium import spaces
+from tensordict import TensorDictBase
 from numpy.typing import ArrayLike
 from torch.nn.utils import clip_grad_norm_
 
@@ -218,6 +219,16 @@ class CQN(RLAlgorithm):
         :return: Loss from learning
         :rtype: float
         """
+        # NOTE: Replay buffers return a TensorDict, a tuple of tensors is also supported
+        if isinstance(experiences, (TensorDictBase, dict)):
+            experiences = (
+                experiences["obs"],
+                experiences["action"],
+                experiences["reward"],
+                experiences["next_obs"],
+                experiences["done"],
+            )
+
         states, actions, rewards, next_states, dones = experiences
         if self.accelerator is not None:
             actions = actions.to(self.accelerator.device)
